@@ -347,6 +347,7 @@ pub fn cfgprod(args: &Args) -> Report {
         "case = (configuration, API, pattern list, haystack): outcome class Ok / Err / panic must equal the four-clause rejection rule; fallible APIs never panic, infallible ones never return when rejected, a constructed iterator never panics while drained".into(),
     );
     let lists: Vec<Vec<Vec<u8>>> = vec![
+        vec![],
         vec![b"a".to_vec()],
         vec![b"ab".to_vec(), b"b".to_vec(), b"abc".to_vec()],
         vec![b"".to_vec()],
@@ -450,6 +451,22 @@ pub fn meta(args: &Args) -> Report {
                 }
             }
             other => rep.fail(Fail { key: "meta:twice:build".into(), what: format!("building twice / from owned pattern types failed: {:?}", other.map(|r| r.map(|_| ()))), argv: vec!["meta".into()] }),
+        }
+    }
+    builder_reuse(&rep, "meta");
+    // an explicitly requested kind is the kind that is returned — or the build fails: a DFA whose
+    // table would exceed the identifier space (one pattern of 4.3 MB, both start kinds, no classes)
+    {
+        let mut rng = Rng(0xD0FA_0BE5);
+        let p: Vec<u8> = (0..4_300_000usize).map(|_| (rng.next() >> 32) as u8).collect();
+        let r = catch_unwind(AssertUnwindSafe(|| {
+            AhoCorasickBuilder::new().kind(Some(AhoCorasickKind::DFA)).start_kind(StartKind::Both).byte_classes(false).prefilter(false).build(&[&p])
+        }));
+        rep.case(true);
+        match r {
+            Ok(Ok(ac)) if ac.kind() != AhoCorasickKind::DFA => rep.fail(Fail { key: "meta:forced-dfa-kind".into(), what: format!("a DFA was requested explicitly for one 4.3 MB pattern (start kind Both, no byte classes); the build returned a {:?}", ac.kind()), argv: vec!["meta".into()] }),
+            Err(_) => rep.fail(Fail { key: "meta:forced-dfa-panic".into(), what: "requesting a DFA beyond the identifier space panicked instead of returning an error".into(), argv: vec!["meta".into()] }),
+            _ => {}
         }
     }
     // a large explicit contiguous NFA (encoding beyond 2^24 words, well inside the documented limits)
@@ -752,6 +769,8 @@ pub fn bigkinds(_args: &Args) -> Report {
         "two large pattern collections: 100 random 700-byte binary patterns (automatic kind = DFA with ~70000 states x stride 256, premultiplied ids beyond 2^24) and 800 random 100-byte patterns (contiguous NFA beyond 2^24 words); every automaton kind x {leftmost-first, standard}".into(),
         "case = (collection, match kind, automaton kind, haystack): find_iter equals the noncontiguous NFA's; haystacks = each of 40 patterns embedded in noise, and all of them concatenated".into(),
     );
+    // the kinds stay interchangeable on a reused builder
+    builder_reuse(&rep, "bigkinds");
     let mut rng = Rng(0xB16_D0FA);
     let colls: Vec<Vec<Vec<u8>>> = vec![
         (0..100).map(|_| (0..700).map(|_| (rng.next() >> 32) as u8).collect()).collect(),
@@ -806,6 +825,55 @@ pub fn bigkinds(_args: &Args) -> Report {
 // ------------------------------------------------------------------------------------------
 // C17 purity differential (the schedule quantifier is NOT decided by this; see DESIGN.md C17)
 // ------------------------------------------------------------------------------------------
+/// builder reuse: setting an option to a non-default value and back must leave no trace, for
+/// every automaton kind (C04: the kinds stay interchangeable; C20: the metadata stays true)
+pub fn builder_reuse(rep: &Report, cmd: &str) {
+        let pats: Vec<Vec<u8>> = vec![b"foo".to_vec(), b"barbaz".to_vec(), b"ba".to_vec()];
+        let hays: Vec<&[u8]> = vec![b"xxfoobarbazba", b"barbaz", b"FOO ba"];
+        let sig = |ac: &AhoCorasick| -> String {
+            let mut out = format!("{:?}/{:?}/{:?}/{}/{}/{}", ac.kind(), ac.match_kind(), ac.start_kind(), ac.patterns_len(), ac.min_pattern_len(), ac.max_pattern_len());
+            for h in &hays {
+                for anch in [Anchored::No, Anchored::Yes] {
+                    let r = catch_unwind(AssertUnwindSafe(|| ac.try_find(Input::new(h).anchored(anch)).map(|m| m.map(cv)).map_err(|e| e.to_string())));
+                    out.push_str(&format!("|{:?}", r.map_err(|_| "panic")));
+                }
+                let r = catch_unwind(AssertUnwindSafe(|| ac.try_find_iter(Input::new(h)).map(|it| it.map(cv).collect::<Vec<M>>()).map_err(|e| e.to_string())));
+                out.push_str(&format!("|{:?}", r.map_err(|_| "panic")));
+            }
+            out
+        };
+        for kind in [None, Some(AhoCorasickKind::NoncontiguousNFA), Some(AhoCorasickKind::ContiguousNFA), Some(AhoCorasickKind::DFA)] {
+            let fresh = match AhoCorasickBuilder::new().kind(kind).build(&pats) {
+                Ok(a) => sig(&a),
+                Err(_) => continue,
+            };
+            let toggles: Vec<(&str, Box<dyn Fn(&mut AhoCorasickBuilder)>)> = vec![
+                ("start_kind(Anchored) then start_kind(Unanchored)", Box::new(|b: &mut AhoCorasickBuilder| { b.start_kind(StartKind::Anchored); b.start_kind(StartKind::Unanchored); })),
+                ("start_kind(Both) then start_kind(Unanchored)", Box::new(|b: &mut AhoCorasickBuilder| { b.start_kind(StartKind::Both); b.start_kind(StartKind::Unanchored); })),
+                ("match_kind(LeftmostLongest) then match_kind(Standard)", Box::new(|b: &mut AhoCorasickBuilder| { b.match_kind(aho_corasick::MatchKind::LeftmostLongest); b.match_kind(aho_corasick::MatchKind::Standard); })),
+                ("ascii_case_insensitive(true) then (false)", Box::new(|b: &mut AhoCorasickBuilder| { b.ascii_case_insensitive(true); b.ascii_case_insensitive(false); })),
+                ("prefilter(false) then (true)", Box::new(|b: &mut AhoCorasickBuilder| { b.prefilter(false); b.prefilter(true); })),
+                ("byte_classes(false) then (true)", Box::new(|b: &mut AhoCorasickBuilder| { b.byte_classes(false); b.byte_classes(true); })),
+                ("kind(DFA) then the requested kind", Box::new(|b: &mut AhoCorasickBuilder| { b.kind(Some(AhoCorasickKind::DFA)); })),
+            ];
+            for (name, t) in &toggles {
+                let mut b = AhoCorasickBuilder::new();
+                t(&mut b);
+                b.kind(kind);
+                rep.case(true);
+                match catch_unwind(AssertUnwindSafe(|| b.build(&pats))) {
+                    Ok(Ok(a)) => {
+                        let got = sig(&a);
+                        if got != fresh {
+                            rep.fail(Fail { key: format!("reuse:reset:{}:{:?}", name, kind), what: format!("builder reuse: {} (kind {:?}) leaves a trace: {} vs a fresh builder {}", name, kind, got, fresh), argv: vec![cmd.into()] });
+                        }
+                    }
+                    other => rep.fail(Fail { key: format!("reuse:reset-build:{}:{:?}", name, kind), what: format!("builder reuse: {} (kind {:?}): build failed or panicked: {:?}", name, kind, other.map(|r| r.map(|_| ()).map_err(|e| e.to_string()))), argv: vec![cmd.into()] }),
+                }
+            }
+        }
+}
+
 pub fn purity(args: &Args) -> Report {
     let seed = args.num("seed", 0);
     let thorough = args.thorough();
@@ -814,6 +882,67 @@ pub fn purity(args: &Args) -> Report {
         "differential: the same searches on one searcher in shuffled orders, on clones, and from 8 threads sharing the searcher and its clones concurrently".into(),
         "case = one search (find / find_iter / overlapping / stream) repeated under a different history or thread; must equal the first sequential result".into(),
     );
+    // relocation: a result is a function of the haystack bytes, not of where they lie in memory
+    // (every address alignment mod 16; long patterns, near misses in every byte near either end)
+    {
+        let mut lists: Vec<Vec<Vec<u8>>> = crate::packedc::lists(false, seed).into_iter().filter(|l| l.iter().any(|p| p.len() >= 13) && l.len() <= 8).collect();
+        let mut p72 = vec![b'e'; 72];
+        p72[0] = b'N';
+        lists.push(vec![p72.clone()]);
+        lists.push(vec![p72[..64].to_vec(), b"Nq".to_vec()]);
+        lists.push(vec![(0..80u8).map(|i| b'a' + i % 23).collect()]);
+        for pats in &lists {
+            let mut hays: Vec<Vec<u8>> = vec![];
+            for p in pats.iter().filter(|p| p.len() >= 13 && p.len() <= 130).take(2) {
+                for j in (0..p.len()).filter(|&j| j < 20 || j + 12 >= p.len()) {
+                    let mut h = vec![b'-'; 40];
+                    let mut q = p.clone();
+                    q[j] = if q[j] == b'#' { b'+' } else { b'#' };
+                    h.extend_from_slice(&q);
+                    h.extend_from_slice(&[b'-'; 24]);
+                    if j % 5 == 0 {
+                        h.extend_from_slice(p);
+                        h.extend_from_slice(&[b'-'; 5]);
+                    }
+                    hays.push(h);
+                }
+            }
+            let mut searchers: Vec<(String, Box<dyn Fn(&[u8]) -> Vec<M>>)> = vec![];
+            if let Some(s) = aho_corasick::packed::Searcher::new(pats.iter()) {
+                searchers.push(("packed::Searcher".into(), Box::new(move |h: &[u8]| s.find_iter(h).map(cv).collect())));
+            }
+            for kind in [None, Some(AhoCorasickKind::NoncontiguousNFA), Some(AhoCorasickKind::ContiguousNFA), Some(AhoCorasickKind::DFA)] {
+                if let Ok(ac) = AhoCorasickBuilder::new().kind(kind).match_kind(aho_corasick::MatchKind::LeftmostFirst).build(pats) {
+                    searchers.push((format!("AhoCorasick kind {:?}", kind), Box::new(move |h: &[u8]| ac.find_iter(h).map(cv).collect())));
+                }
+            }
+            for (name, f) in &searchers {
+                for h in &hays {
+                    let mut base: Option<Vec<M>> = None;
+                    for off in 0..16usize {
+                        let mut buf = vec![0u8; h.len() + 32];
+                        buf[off..off + h.len()].copy_from_slice(h);
+                        rep.case(true);
+                        let got = match catch_unwind(AssertUnwindSafe(|| f(&buf[off..off + h.len()]))) {
+                            Ok(g) => g,
+                            Err(_) => {
+                                rep.fail(Fail { key: format!("purity:reloc-panic:{}", name), what: format!("{} for {}: search of '{}' at buffer offset {} panicked", name, show_pats(&pats[..pats.len().min(3)]), show(h), off), argv: vec!["purity".into()] });
+                                continue;
+                            }
+                        };
+                        match &base {
+                            None => base = Some(got),
+                            Some(b) if *b != got => {
+                                rep.fail(Fail { key: format!("purity:reloc:{}:{}", name, show_pats(&pats[..pats.len().min(3)])), what: format!("{} for {}: the same bytes '{}' give {:?} at buffer offset 0 and {:?} at offset {}", name, show_pats(&pats[..pats.len().min(3)]), show(h), b, got, off), argv: vec!["purity".into()] });
+                                break;
+                            }
+                            _ => {}
+                        }
+                    }
+                }
+            }
+        }
+    }
     // vector searchers: many patterns sharing a fingerprint (one crowded verification bucket),
     // the same two searches alternated on one searcher, its clone and a freshly built one
     {
